@@ -148,7 +148,11 @@ def probe(w, started):
         r["root_published_step"] = pub_step.get(r["root"])
     err_uids = {o["uid"] for o in log if o["kind"] == "publish" and o["queues"] and str(o["queues"][0]).startswith("asl_workflow_reply_to") and b"errorType" in o["body"]}
     replies = {o["correlation_id"]: o["step"] for o in log if o["kind"] == "deliver" and str(o["queue"]).startswith("asl_workflow_reply_to") and o["uid"] in err_uids}
-    return {"requests": reqs, "reply_step": replies}
+    # task requests / replies whose delivery happened at a later virtual instant than their publication (the schedule let time pass while they were in flight) or never happened
+    pub_t = {o["uid"]: o["t"] for o in log if o["kind"] == "publish" and o["queues"] and not str(o["queues"][0]).startswith("asl_workflow_events")}     # task requests and their replies
+    late = sum(1 for o in log if o["kind"] == "deliver" and o["uid"] in pub_t and o["t"] - pub_t[o["uid"]] > 0.5)
+    undelivered = len(set(pub_t) - {o["uid"] for o in log if o["kind"] == "deliver"})
+    return {"requests": reqs, "reply_step": replies, "late_replies": late + undelivered}
 
 
 def extra(case, sched, starts, res):
@@ -161,7 +165,10 @@ def extra(case, sched, starts, res):
     nfailing = sum(1 for f in c6["fails"] if f)
     if outs and not (c6.get("retry") and nfailing > 1):      # with a Retry and several failing branches the attempt numbers seen by the workers depend on the schedule
         problems = [H.compare_outcome(e, obs) for e in outs]
-        if all(problems):
+        # a schedule that lets virtual time pass while a request or reply is still in flight can make a Task with TimeoutSeconds time out before its (error) reply is handled:
+        # States.Timeout of that Task is then a legitimate first failure which the reference (replies handled at once) does not enumerate
+        timeout_race = ((info.get("probe") or {}).get("late_replies", 0) > 0 and '"TimeoutSeconds"' in json.dumps(case["definition"]))
+        if all(problems) and not timeout_race:
             tag = "inband-error-data:" if any(H.has_inband_error(e) for e in outs) else ""
             fails.append((tag + "outcome-not-admissible:" + problems[0][0][0].split(":")[0], "observed %r; admissible reference outcomes: %r" % (obs, [repr(e)[:200] for e in outs])))
     hist = (info.get("histories") or {}).get(arn) or []
